@@ -18,7 +18,10 @@ NOT_PROVED = ["the theorems are about the composition model (compExpected, resca
 ASSUMPTIONS = ['%.15e formatting and fsum are outside the model: concentrations are compared to 1e-12 relative']
 
 SUFF = ['', '', '.70c', '.80c', '.31c']
-FRACS_POS = ['1', '2', '0.5', '1.0', '2.5e-1', '0.1', '3', '1e-2', '0.25', '6.02e-1']
+FRACS_POS = ['1', '2', '0.5', '1.0', '2.5e-1', '0.1', '3', '1e-2', '0.25', '6.02e-1',
+             '1.e-3', '9.E-01', '2.d-2', '.5', '5.', '6.67-1', '1.5D-1', '4.e0', '.25e1', '1.E+0']
+# a nuclide with a zero amount (depletion-style placeholder) is still a nuclide of the card
+FRACS_ZERO = ['0', '0.0', '0.', '0.000', '0.0e0']
 A_OF = {1: [1, 2, 3], 8: [16, 17, 18], 92: [235, 238, 234], 26: [54, 56, 57], 6: [12, 13], 13: [27], 94: [239, 240]}
 
 
@@ -41,6 +44,8 @@ def gen_card(rng, zpick):
         a = rng.choice([0, 0] + A_OF.get(z, [2 * z, 2 * z + 1, 1])) if rng.random() < 0.9 else rng.randint(1, 299)
         zaid = '%d%03d' % (z, a)
         f = rng.choice(FRACS_POS)
+        if i > 0 and rng.random() < 0.06:
+            f = rng.choice(FRACS_ZERO)
         if neg:
             f = '-' + f
         ents.append((zaid, f))
